@@ -1,11 +1,11 @@
 package ledgersim
 
 import (
-	"github.com/ethereum/go-ethereum/common"
 	"bytes"
 	"encoding/hex"
 	"encoding/json"
 	"fmt"
+	"github.com/ethereum/go-ethereum/common"
 	"math/big"
 	"sort"
 	"strings"
